@@ -19,7 +19,10 @@ def gen_config(rng, adversarial=None):
         if adversarial == "all-at-once" and par:
             sleep = 120
         ex = 0 if rng.random() < 0.75 else rng.choice([1, 2, 7, 255])
-        steps.append(["s%d" % (i + 1), par, sleep, ex])
+        # step names as canvas.conf allows them: also paths (log names replace '/' by '-') and dots
+        r = rng.random()
+        name = "s%d" % (i + 1) if r < 0.6 else "dir%d/s%d" % (i + 1, i + 1) if r < 0.85 else "a.b/c%d.d" % (i + 1)
+        steps.append([name, par, sleep, ex])
     if adversarial == "trailing-parallel":
         steps[-1][1] = True
         steps[-1][2] = 400
@@ -44,7 +47,7 @@ class CanvasRunner:
         self.build = build
         self.n = 0
 
-    def run(self, cfg, detach=False, resume_dir=None, root=None, keep_root=False, extra_env=None, hook=True, timeout=120):
+    def run(self, cfg, detach=False, resume_dir=None, root=None, keep_root=False, extra_env=None, hook=True, timeout=120, extra_conf=""):
         sh = self.sh
         self.n += 1
         root = root or os.path.join(self.ctx.scratch, "canvasroot%d" % self.n)
@@ -58,6 +61,7 @@ class CanvasRunner:
         plan = os.path.join(root, "plan")
         with open(conf, "w") as f:
             f.write('canvas-name "t"\ncanvas-dir "%s"\n' % root)
+            f.write(extra_conf)
             cfg_skip = [s for s in cfg["skip"] if s not in cfg["cmdline_skip"]]
             if cfg_skip:
                 f.write("skip { %s }\n" % " ".join('"%s"' % s for s in cfg_skip))
